@@ -25,7 +25,7 @@ for d in sorted(glob.glob(os.path.join(root, 'C??-?'))):
     if r.returncode != 0:
         r3 = sh(f'git -C /repo apply --3way {patch}')
         if r3.returncode != 0 or 'conflict' in r3.stdout.lower():
-            sh('git -C /repo checkout -- . ; git -C /repo reset -q')
+            sh('git -C /repo reset -q ; git -C /repo checkout -- . ; git -C /repo clean -fdq')
             results[name] = {'history': results.get(name, {}).get('history', []), 'status': 'patch-does-not-apply', 'detail': (r.stdout + r3.stdout)[-400:]}
             print(name, 'patch does not apply'); continue
         sh('git -C /repo reset -q')
